@@ -88,7 +88,7 @@ _p("C16", ["instances", "c16_ns"], ["pipeline"],
    "stop only when the number of full classes reaches the number of target classes), proved per step with frames. Namespace filter and composition: " + MON)
 _p("C17", ["c17_min_iri"], ["schemas"],
    "Deductive: longest_common_prefix (loop invariant, maximality), one step of the fold over instances with its frame, prefix transitivity lemma. The cut back "
-   "to a separator (reversed string + regex) and the examples bookkeeping: bounded (schemas.py).")
+   "to a separator (reversed string + regex) and the examples bookkeeping: bounded (schemas.py).", crosscheck=True)
 _p("C18", ["c18_state", "c20_config"], ["history"],
    "Deductive: buffer invariant of the ShExC serializer (sink text ++ pending lines grows by exactly the written line, across the 5000-line flush; file sink "
    "assumed to append), cache invariant of Shaper.shex_graph (the shapes that are serialised were computed for this call's threshold). Call histories of "
@@ -100,7 +100,7 @@ _p("C19", ["c05_tokens"], ["static.c19_scan", "determinism"],
 _p("C20", ["c20_config"], [],
    "Loop-free validation code of Shaper.__init__ / shex_graph verified against the reference predicate of the statement over fully symbolic arguments "
    "(presence flags and values); one obligation per program path and exception edge, so the discharge is a complete proof over the whole argument product. "
-   "Assumed: building the remote graph / parsing a well-formed shape map does not raise.", level="proof", min_obligations=300)
+   "Assumed: building the remote graph / parsing a well-formed shape map does not raise.", level="proof", min_obligations=300, crosscheck=True)
 
 HOOK_COMMITS = []
 NOT_APPLICABLE = {}
